@@ -159,7 +159,7 @@ func (s *Sim) Run(body func(g *Gen)) (*Gen, simrt.Result) {
 	w.FSHandler = func(ev *simrt.FSEvent) {
 		s.FS[simrt.FSKindName(ev.Kind)+":"+fileClass(ev.Path)]++
 		if fsTrace {
-			fmt.Fprintf(os.Stderr, "FSEV gen=%d #%d step=%d %s %s off=%d len=%d task=%d\n", s.Gens, ev.Seq, ev.Step, simrt.FSKindName(ev.Kind), filepath.Base(ev.Path), ev.Off, len(ev.Data), ev.Task)
+			fmt.Fprintf(os.Stderr, "FSEV gen=%d #%d step=%d %s %s off=%d len=%d task=%d(%s)\n", s.Gens, ev.Seq, ev.Step, simrt.FSKindName(ev.Kind), filepath.Base(ev.Path), ev.Off, len(ev.Data), ev.Task, w.CurName())
 		}
 		rel, _ := filepath.Rel(s.Dir, ev.Path)
 		s.logEvent(simrt.FSKindName(ev.Kind), rel, ev.Off^(ev.Step<<20), ev.Data)
